@@ -466,14 +466,16 @@ func (s *Script) ScriptType() string {
 	if s.IsP2PKH() {
 		return ScriptTypePubKeyHash
 	}
+	// a script that starts with OP_RETURN / OP_FALSE OP_RETURN is data whatever follows
+	// (its tail may happen to look like the end of a multisig template)
+	if s.IsData() {
+		return ScriptTypeNullData
+	}
 	if s.IsP2PK() {
 		return ScriptTypePubKey
 	}
 	if s.IsMultiSigOut() {
 		return ScriptTypeMultiSig
-	}
-	if s.IsData() {
-		return ScriptTypeNullData
 	}
 	if s.IsP2PKHInscription() {
 		return ScriptTypePubKeyHashInscription
